@@ -40,6 +40,7 @@ type vpConfig struct {
 	jsonVersion int               // 0 absent, 1 -> 2, 2 -> 3 (invalid)
 	progress    int               // 0 absent, 1 true
 	consulted   map[string]int
+	refs        []sizes.RefRoot // what the enumeration of references returns (default: none)
 }
 
 func vpInstallMainStubs(cfg *vpConfig, cap *vpCaptured, probe string) {
@@ -96,7 +97,7 @@ func vpInstallMainStubs(cfg *vpConfig, cap *vpCaptured, probe string) {
 	vp_Stub("github.com/github/git-sizer/sizes.CollectReferences", func(ctx context.Context, repo *git.Repository, rg sizes.RefGrouper) ([]sizes.RefRoot, error) {
 		w, _ := rg.Categorize(probe)
 		cap.walkProbe, cap.categorized = w, true
-		return nil, nil
+		return cfg.refs, nil
 	})
 	vp_Stub("(*github.com/github/git-sizer/git.Repository).ResolveObject", func(r *git.Repository, name string) (git.OID, error) {
 		if name == "bad" {
@@ -488,8 +489,11 @@ func vpResolve(name string) git.OID {
 		b[0] = 1
 	case "two", "refs/heads/two":
 		b[0] = 2
-	case "three":
+	case "three", "refs/tags/three":
+		// git's disambiguation: refs/tags/<name> comes before refs/heads/<name>
 		b[0] = 3
+	case "refs/heads/three":
+		b[0] = 9
 	default:
 		return git.NullOID
 	}
@@ -513,6 +517,15 @@ func VPH_mainRoots() {
 	}
 	cfg := &vpConfig{consulted: map[string]int{}}
 	cap := &vpCaptured{}
+	// the repository may have a branch and a tag with the same short name, pointing at
+	// different objects (git resolves the short name to the tag)
+	ambiguous := vp_Choice("ambiguous-refs", 2) == 1
+	if ambiguous {
+		cfg.refs = []sizes.RefRoot{
+			sizes.VP_MkRefRoot("refs/heads/three", vpResolve("refs/heads/three"), false),
+			sizes.VP_MkRefRoot("refs/tags/three", vpResolve("refs/tags/three"), false),
+		}
+	}
 	vpInstallMainStubs(cfg, cap, "refs/heads/x")
 	var stdout, stderr bytes.Buffer
 	err := mainImplementation(context.Background(), &stdout, &stderr, args)
@@ -521,6 +534,10 @@ func VPH_mainRoots() {
 		return
 	}
 	for _, r := range cap.rootRecs {
+		if ambiguous && (r.name == "refs/heads/three" || r.name == "refs/tags/three") {
+			vp_Assert(r.oid == vpResolve(r.name), "a reference root carries its own object")
+			continue
+		}
 		vp_Assert(r.oid == vpResolve(r.name), "a root carries the object that its own name resolves to (its description must resolve to the cited object)")
 		given := false
 		for _, a := range args {
